@@ -295,7 +295,7 @@ func c02GenRaw(d rig.Drawer, op0 byte) rig.Raw {
 func TestC02(t *testing.T) {
 	rig.Main(t, "C02", "rapid state machines over the pair (cpu65c816, cpualt) loaded from the same raw register file (E=0/1, any D/M/X, stale non-authoritative "+
 		"register copies 30% of the time) and the same sparse image; actions step (just-in-time edge-solving synthesis, all 256 opcodes), TriggerIRQ, NMI, Reset, fork (both continue on CPUs created with InitFrom; the CPUs left behind must keep their state); after every action "+
-		"Step() results, Cycles, AllCycles, architectural view, flags, E, Stopped, WDM, PPC/PRK, pending interrupt and memory must be equal.  Non-trivial = at least one step executed "+
+		"Step() results, Cycles, AllCycles, architectural view, flags, E, Stopped, WDM, PPC/PRK, pending interrupt and memory must be equal; the WDM hook of both interpreters panics once (operand ending in binary 11), the caller restores the exported register fields and makes the step again.  Non-trivial = at least one step executed "+
 		"on both without panic; distinct = hash(raw state, memory seed, patches, actions).",
 		func(r *rig.Run) {
 			ev := r.Ev
